@@ -199,11 +199,44 @@ theorem buildFunction_fn (env : Env) (eng : Engine) (m : MethodEntry) (src dst :
   split at h
   · split at h
     · cases h; simp at hl
-    · cases h
     · split at h
       · cases h; simp at hl
       · cases h
-      · cases h; rfl
+      · split at h
+        · cases h; simp at hl
+        · cases h
+        · cases h; rfl
+  · cases h
+  · cases h
+
+/-- a function that copies slice elements in a loop has no operand called `i` or `e` (the repaired
+shadowing: `for i, e := range src.Items { i.Items[i] = e }`) -/
+theorem loop_names_free (env : Env) (eng : Engine) (m : MethodEntry) (src dst : ParamVar) (additional : List ParamVar)
+    (srcVar dstVar : Var) (argVars : List Var) (b : Built)
+    (h : buildFunction env eng m src dst additional srcVar dstVar argVars = .ok b) (hl : b.lateError = none)
+    (hloop : Stmt.listUsesLoop b.stmts = true) :
+    ∀ n ∈ scopeNames srcVar dstVar argVars (m.retError env), n ≠ "i" ∧ n ≠ "e" := by
+  unfold buildFunction at h
+  simp only [bind, Outcome.bind, pure] at h
+  split at h
+  · rename_i stmts _
+    split at h
+    · cases h; simp at hl
+    · rename_i hsh
+      have hstmts : b.stmts = stmts := by
+        split at h
+        · cases h; rfl
+        · cases h
+        · split at h
+          · cases h; rfl
+          · cases h
+          · cases h; rfl
+      rw [hstmts] at hloop
+      unfold shadowedByLoop at hsh
+      simp only [hloop, if_true] at hsh
+      intro n hn
+      have := List.find?_eq_none.mp hsh n hn
+      simpa using this
   · cases h
   · cases h
 
